@@ -234,10 +234,13 @@ Definition rename_step (plain : bool) (old : inv) (s : rn_state) (c : change) : 
     let o2n := o2n ++ [c_op c] in
     let cmds := if emit then cmds ++ [CR (c_op c) (c_np c)] else cmds in
     let mods := if content_or_meta_changed c then mods ++ [c] else mods in
-    (* tree_old.iter_entries_by_dir(specific_files=[old path]) yields only the directory itself, with
-       its full path: must_be_renamed[old/old] = new/old (skipped in plain mode: it is a directory) *)
-    let must := if kind_eqb (kind_of (c_old c)) KDir && kind_eqb (kind_of (c_new c)) KDir && negb plain
-                then aset bytes_eqb must (pjoin (c_op c) (c_op c)) (pjoin (c_np c) (c_op c))
+    (* plain streams: the files and symlinks below a renamed directory (tree_old.walkdirs) must be renamed
+       one by one; in a rich stream the directory's own rename carries them *)
+    let must := if kind_eqb (kind_of (c_old c)) KDir && kind_eqb (kind_of (c_new c)) KDir && plain
+                then fold_left (fun (m : list (path * path)) (pe : path * entry) =>
+                                  if kind_eqb (e_kind (snd pe)) KDir then m
+                                  else aset bytes_eqb m (pjoin (c_op c) (fst pe)) (pjoin (c_np c) (fst pe)))
+                               (descendants old (c_id c)) must
                 else must in
     (cmds, mods, o2n, must, dels).
 
@@ -245,7 +248,7 @@ Definition process_renames_and_deletes (plain : bool) (renames deletes : list ch
   : list fcmd * list change :=
   let '(cmds, mods, o2n, must, dels) :=
     fold_left (rename_step plain old) renames ([], [], [], [], map c_op deletes) in
-  let implicit := flat_map (fun ab => if pmem (fst ab) o2n then [] else [CR (fst ab) (snd ab)])
+  let implicit := flat_map (fun ab => if pmem (fst ab) o2n || pmem (fst ab) dels then [] else [CR (fst ab) (snd ab)])
                            (sort_by (fun a b => bytes_ltb (fst a) (fst b)) must) in
   let rest := flat_map (fun c => if negb (pmem (c_op c) dels) then []
                                  else if kind_eqb (kind_of (c_old c)) KDir && plain then []
@@ -285,10 +288,16 @@ Definition mod_cmds (plain : bool) (old new : inv) : list fcmd * list fcmd :=
   let '(cmds, rd_mod) := process_renames_and_deletes plain (d_renamed old new) (d_removed old new) old in
   (cmds, flat_map (modify_cmd plain) (d_added old new ++ d_modified old new ++ d_kind_changed old new ++ rd_mod)).
 
-(* _get_filecommands: (rename/delete commands in order, M commands in stream order) *)
-Definition filecmds (plain : bool) (old new : inv) (mpaths : list path) : list fcmd * list fcmd :=
+(* a file or symlink that becomes a directory is deleted first (they come in kind_changed = iter_changes
+   order: [dpaths], the observed order of the D commands, plays the role of [mpaths]) *)
+Definition kind_dels (old new : inv) : list fcmd :=
+  flat_map (fun c => if kind_eqb (kind_of (c_new c)) KDir then [CD (c_op c)] else []) (d_kind_changed old new).
+
+(* _get_filecommands: (delete/rename commands in order, M commands in stream order) *)
+Definition filecmds (plain : bool) (old new : inv) (mpaths dpaths : list path) : list fcmd * list fcmd :=
   let '(cmds, mods) := mod_cmds plain old new in
-  (cmds, order_by mpaths (sort_by (fun a b => bytes_ltb (cmd_path a) (cmd_path b)) mods)).
+  (order_by dpaths (kind_dels old new) ++ cmds,
+   order_by mpaths (sort_by (fun a b => bytes_ltb (cmd_path a) (cmd_path b)) mods)).
 
 (* ---------------------------------------------------------------- importer: CommitHandler *)
 
@@ -404,7 +413,10 @@ Fixpoint ensure_directory_fuel (fuel : nat) (s : st) (p : path) : res (bytes * N
           let '(di, s) := bzr_file_id s d in
           let ie := mkE di par dbase KDir [] false in
           let s := set_dirents s (aset bytes_eqb (dirents s) d ie) in
-          do s <- (if has_id (basis s) di then record_delete s d ie else Ok s);
+          (* record_delete forgets the directory entry cached above: it is re-seated *)
+          do s <- (if has_id (basis s) di
+                   then do s <- record_delete s d ie; Ok (set_dirents s (aset bytes_eqb (dirents s) d ie))
+                   else Ok s);
           do s <- add_entry s None (Some d) di (Some ie);
           Ok (b, di, s)
       end
@@ -578,8 +590,8 @@ Definition import_commit (b : inv) (fr : N) (cmds : list fcmd) : res (inv * N) :
   Ok (v, fresh s).
 
 (* the imported tree of one step, for the tree-level statements *)
-Definition roundtrip_tree (plain : bool) (dst_basis : inv) (old new : inv) (mpaths : list path)
+Definition roundtrip_tree (plain : bool) (dst_basis : inv) (fr : N) (old new : inv) (mpaths : list path)
   : res (list titem) :=
-  let '(cmds, mods) := filecmds plain old new mpaths in
-  do r <- import_commit dst_basis 1000 (cmds ++ mods);
+  let '(cmds, mods) := filecmds plain old new mpaths [] in
+  do r <- import_commit dst_basis fr (cmds ++ mods);
   Ok (tree_of (fst r)).
